@@ -22,6 +22,7 @@
 
 #include <csignal>
 #include <set>
+#include <unordered_set>
 #include <sstream>
 #include <sys/wait.h>
 #include <unistd.h>
@@ -422,6 +423,8 @@ int main(int argc, char** argv) {
   // the main thread leaves QSBR: every execution starts from "no thread registered"
   unodb::this_thread().qsbr_pause();
 
+  std::unordered_set<std::uint64_t> seen;
+  long n_exec = 0, n_distinct = 0;
   auto run_one = [&](int nt, int no, const std::vector<Tok>& toks, vh::Rng* rng) {
     int pe[2], po[2];
     if (pipe(pe) != 0 || pipe(po) != 0) std::abort();
@@ -488,7 +491,17 @@ int main(int argc, char** argv) {
         es += "{\"e\":\"crash\",\"sig\":" + std::to_string(WIFSIGNALED(status) ? WTERMSIG(status) : 1000 + WEXITSTATUS(status)) + "}\n";
       if (os.empty()) os = "O 0 0 DIED\n";
     }
-    std::fwrite(es.data(), 1, es.size(), evf);
+    // identical event sequences are validated once
+    std::uint64_t h = 1469598103934665603ULL;
+    for (unsigned char c : es) {
+      h ^= c;
+      h *= 1099511628211ULL;
+    }
+    ++n_exec;
+    if (seen.insert(h).second) {
+      ++n_distinct;
+      std::fwrite(es.data(), 1, es.size(), evf);
+    }
     if (obsf) std::fwrite(os.data(), 1, os.size(), obsf);
   };
 
@@ -520,5 +533,6 @@ int main(int argc, char** argv) {
   std::fflush(evf);
   if (obsf) std::fclose(obsf);
   if (evp) std::fclose(evf);
+  std::fprintf(stderr, "{\"executions\":%ld,\"distinct\":%ld}\n", n_exec, n_distinct);
   _exit(0);
 }
